@@ -33,12 +33,13 @@ TRUSTED = ['float64 evaluation of compute_area on integer-valued coordinates is 
            'validated to 1e-12 relative against math.fsum of math.sqrt of the model\'s terms',
            'pyarrow buffers() export (harness/common.py export_listarr, harness/c14_util.py)']
 
-IMPORTS = 'Model.Num Model.Arrow Model.Measures Spec.MeasuresSpec'
+IMPORTS = 'Model.Num Model.Arrow Model.Measures Spec.MeasuresSpec Proofs.MeasuresMapProofs'
 # wf_listarr and even_inner are the guards of the theorems: asserted on every real array
 ARR_FN = "fun '(k, a) => if wf_listarr a && even_inner a then Some (arr_measures k a) else None"
 ARR_TY = 'kind * listarr'
 ARR_RES = 'option (list (option lenres) * list num)'
-SC_FN = "fun '(k, s) => if sc_wf s && even_inner s then Some (sc_measures k s) else None"
+SC_FN = ("fun '(k, s) => if sc_wf s && all_even (sc_inner_offsets s) then Some (sc_measures k s) "
+         "else None")
 SC_RES = 'option (lenres * num)'
 PT_FN = 'fun a => if wf_fixarr a then Some (pt_measures a) else None'
 BD_FN = ("fun '(k, a, b) => eqbc (la_view (match k with KPolygon => polygon_boundary a "
@@ -348,7 +349,7 @@ def element_space(rng, kind, tier, with_nan):
         out = [[]] + [[p] for p in polys]
         two = [[p, q] for p in polys for q in polys]
         out += rng.sample(two, 250) if quick else two
-        n3 = 250 if quick else 20000
+        n3 = 250 if quick else 8000
         out += [[rng.choice(polys) for _ in range(3)] for _ in range(n3)]
         return out
     raise ValueError(kind)
@@ -386,7 +387,7 @@ def gen_arrays(rep, tier):
             space = element_space(rng, kind, tier, isf)
             chunks = [space[i:i + 3] for i in range(0, len(space), 3)]
             if st != 'float64':
-                chunks = rng.sample(chunks, min(len(chunks), max(3, len(chunks) // (12 if quick else 1))))
+                chunks = rng.sample(chunks, min(len(chunks), max(3, len(chunks) // (12 if quick else 3))))
             for ch in chunks:
                 els = list(ch)
                 if rng.random() < 0.5:
@@ -394,7 +395,7 @@ def gen_arrays(rep, tier):
                 yield kind, st, els, rng.choice([0, 0, 1, 2])
     # random structured stream, wider coordinate bands inside each subtype's exact range
     band = {'float64': 1 << 20, 'float32': 1 << 10, 'int64': 1 << 20, 'int32': 1 << 14, 'int16': 100}
-    nrand = 25 if quick else 1500
+    nrand = 25 if quick else 300
     for kind in G.KINDS:
         for st in G.SUBTYPES:
             for _ in range(nrand):
